@@ -313,6 +313,6 @@ EXPLANATION = 'leaky bucket monitor and stream wrapper contracts'
 def bounded_checks(tier, seed):
     """B3: exhaustive short op sequences on the real LeakyBucket with a fake clock."""
     from pyvc.bounded import run_tool
-    k = 3 if tier == 'quick' else 5
+    k = 4 if tier == 'quick' else 5
     return run_tool('C13', 'b3_leakybucket', 'b3_leakybucket.py', [k],
                     f'all sequences of <= {k} consume/unschedule ops over 2 tokens, 4 amounts, 2 time steps', 'failing_ops')
